@@ -4,6 +4,7 @@ import SamVerif.Props.C12d
 import SamVerif.Props.C12e
 import SamVerif.Props.C12f
 import SamVerif.Props.C12g
+import SamVerif.Props.C12h
 /-! Axiom audit of every C12 property theorem (parsed by vlib/common.py). -/
 open SamVerif.ErrorSet SamVerif.Layout SamVerif.MirFull SamVerif.TempCounter
 #print axioms errorset_merge_ac
@@ -38,3 +39,7 @@ open SamVerif.ErrorSet SamVerif.Layout SamVerif.MirFull SamVerif.TempCounter
 #print axioms temp_names_defined_perm
 #print axioms temp_counter_renaming
 #print axioms temp_counter_renaming_injective
+#print axioms parse_order_by_name_invariant
+#print axioms parse_order_by_name_perm_invariant
+#print axioms parse_order_by_parts_counterexample
+#print axioms parse_order_by_parts_partial
